@@ -24,20 +24,69 @@ Definition to_upper (c : ascii) : ascii :=
 Definition opt_test {A} (f : A -> bool) (o : option A) : bool :=
   match o with Some a => f a | None => false end.
 
+(* Characters.  The Rust functions work on `char`s with Unicode case predicates.  The model knows ASCII and the
+   letters of the Latin-1 supplement U+00C0..U+00FF (UTF-8: the byte 195 followed by a byte in 128..191); any other
+   byte is a character that is neither a letter, a digit nor an underscore. *)
+Inductive uch := UA (c : ascii) | UL (b : ascii).
+
+Definition is_cont (b : ascii) : bool := let n := nat_of_ascii b in (128 <=? n)%nat && (n <=? 191)%nat.
+Fixpoint decode (cs : list ascii) : list uch :=
+  match cs with
+  | [] => []
+  | c :: rest =>
+      match rest with
+      | b :: rest' => if Ascii.eqb c "195"%char && is_cont b then UL b :: decode rest' else UA c :: decode rest
+      | [] => [UA c]
+      end
+  end.
+Definition enc1 (u : uch) : list ascii := match u with UA c => [c] | UL b => ["195"%char; b] end.
+Definition encode (us : list uch) : list ascii := flat_map enc1 us.
+
+(* U+00C0..U+00DE except the multiplication sign are upper case; U+00DF..U+00FF except the division sign lower case *)
+Definition u_is_upper (u : uch) : bool :=
+  match u with
+  | UA c => is_upper c
+  | UL b => let n := nat_of_ascii b in (128 <=? n)%nat && (n <=? 158)%nat && negb (n =? 151)%nat
+  end.
+Definition u_is_lower (u : uch) : bool :=
+  match u with
+  | UA c => is_lower c
+  | UL b => let n := nat_of_ascii b in (159 <=? n)%nat && (n <=? 191)%nat && negb (n =? 183)%nat
+  end.
+Definition u_is_digit (u : uch) : bool := match u with UA c => is_digit c | UL _ => false end.
+Definition u_is_us (u : uch) : bool := match u with UA c => is_us c | UL _ => false end.
+(* char::to_lowercase: one character for every letter the model knows *)
+Definition u_to_lower (u : uch) : uch :=
+  match u with
+  | UA c => UA (to_lower c)
+  | UL b => if u_is_upper (UL b) then UL (ascii_of_nat (nat_of_ascii b + 32)) else UL b
+  end.
+(* char::to_uppercase: the sharp s becomes "SS", y with diaeresis leaves the Latin-1 block (U+0178 = 197 184) *)
+Definition u_to_upper (u : uch) : list ascii :=
+  match u with
+  | UA c => [to_upper c]
+  | UL b =>
+      let n := nat_of_ascii b in
+      if (n =? 159)%nat then ["S"%char; "S"%char]
+      else if (n =? 191)%nat then ["197"%char; "184"%char]
+      else if u_is_lower (UL b) then ["195"%char; ascii_of_nat (n - 32)]
+      else ["195"%char; b]
+  end.
+
 (* utils.rs:25 to_snake_case; [prev] is chars[i-1] (None iff i = 0) *)
-Fixpoint snake_aux (prev : option ascii) (cs : list ascii) : list ascii :=
+Fixpoint snake_aux (prev : option uch) (cs : list uch) : list uch :=
   match cs with
   | [] => []
   | ch :: rest =>
-      if is_upper ch then
-        let prev_is_lower := opt_test is_lower prev in
-        let prev_is_us := opt_test is_us prev in
-        let next_is_lower := opt_test is_lower (hd_error rest) in
+      if u_is_upper ch then
+        let prev_is_lower := opt_test u_is_lower prev in
+        let prev_is_us := opt_test u_is_us prev in
+        let next_is_lower := opt_test u_is_lower (hd_error rest) in
         let i_gt0 := match prev with Some _ => true | None => false end in
-        let prev_is_upper := opt_test is_upper prev in
+        let prev_is_upper := opt_test u_is_upper prev in
         let ins := i_gt0 && negb prev_is_us && (prev_is_lower || next_is_lower)
                    && (negb prev_is_upper || next_is_lower) in
-        (if ins then ["_"%char] else []) ++ to_lower ch :: snake_aux (Some ch) rest
+        (if ins then [UA "_"%char] else []) ++ u_to_lower ch :: snake_aux (Some ch) rest
       else ch :: snake_aux (Some ch) rest
   end.
 (* a raw identifier (`r#loop`) contributes its bare name: s.strip_prefix("r#").unwrap_or(s) *)
@@ -47,33 +96,33 @@ Definition strip_raw (cs : list ascii) : list ascii :=
   | _ => cs
   end.
 Definition to_snake_case (s : string) : string :=
-  string_of_list_ascii (snake_aux None (strip_raw (list_ascii_of_string s))).
+  string_of_list_ascii (encode (snake_aux None (decode (strip_raw (list_ascii_of_string s))))).
 
 (* utils.rs:75 to_pascal_case: split on '_', upper-case the first char of each word, concatenate *)
-Fixpoint pascal_aux (start : bool) (cs : list ascii) : list ascii :=
+Fixpoint pascal_aux (start : bool) (cs : list uch) : list ascii :=
   match cs with
   | [] => []
-  | c :: r => if is_us c then pascal_aux true r
-              else (if start then to_upper c else c) :: pascal_aux false r
+  | c :: r => if u_is_us c then pascal_aux true r
+              else (if start then u_to_upper c else enc1 c) ++ pascal_aux false r
   end.
 Definition to_pascal_case (s : string) : string :=
-  string_of_list_ascii (pascal_aux true (list_ascii_of_string s)).
+  string_of_list_ascii (pascal_aux true (decode (list_ascii_of_string s))).
 
 (* validation.rs:25 is_snake_case *)
-Fixpoint snake_chars_ok (prev_us : bool) (cs : list ascii) : bool :=
+Fixpoint snake_chars_ok (prev_us : bool) (cs : list uch) : bool :=
   match cs with
   | [] => true
   | c :: r =>
-      if negb (is_lower c) && negb (is_digit c) && negb (is_us c) then false
-      else if is_us c then (if prev_us then false else snake_chars_ok true r)
+      if negb (u_is_lower c) && negb (u_is_digit c) && negb (u_is_us c) then false
+      else if u_is_us c then (if prev_us then false else snake_chars_ok true r)
       else snake_chars_ok false r
   end.
 Definition is_snake_case (s : string) : bool :=
-  let cs := list_ascii_of_string s in
+  let cs := decode (list_ascii_of_string s) in
   match cs with
   | [] => false
   | c :: _ =>
-      if is_us c || opt_test is_us (hd_error (rev cs)) then false
+      if u_is_us c || opt_test u_is_us (hd_error (rev cs)) then false
       else snake_chars_ok false cs
   end.
 
